@@ -19,7 +19,7 @@ RULE = ("(a) pmf grid: hypergeometric_pmf(N,K,n,k) for ALL 0<=K<=N, 0<=n<=N, 0<=
         "n in {1,N/2,N-1,N}, K in {0,1,N/2,N} and the mode k; (c) operator wiring: every unit vector of every shape in a grid (1-3 axes) "
         "projected to every admissible target; (c2) Spectrum::project of sparse one-/two-axis spectra between LARGE sizes (N up to 4000 chromosomes down to targets in the hundreds/thousands, mass at intermediate allele counts) vs big-integer reference; (c3) the same pmf queries and projections issued from 2-16 threads that start together in a fresh process (harness op `mt`), sizes above 170 chromosomes; (d) random signed/real spectra (1-4 axes) vs exact rational projection, and the laws mass, "
         "non-negativity, identity (exact), two-step == direct, commutes with marginalization; (e) inadmissible targets -> the stated error; "
-        "(f) CLI view --project-shape/-individuals. Tolerance: relative 1e-9 of the exact coefficient (abs 1e-300), 1e-9*sum|x| for spectra. "
+        "(f) CLI view --project-shape/-individuals. Tolerance: relative 1e-9 of the exact coefficient (abs 1e-300), 1e-9*sum|x| for spectra (for signed / wide-magnitude / near-overflow data: per cell, 1e-9 of the sum of the absolute terms of that cell). "
         "Non-trivial: a coefficient strictly between 0 and 1 / a projection that really reduces a size; distinct = digest of the query.")
 ASSUMPTIONS = ["exact reference: math.comb big integers and fractions.Fraction",
                "measured worst relative error of the real pmf is ~3e-12, so 1e-9 has a 300x margin while a wrong index/weight is off by >=1e-3"]
@@ -274,7 +274,7 @@ def check_random(S, p):
         d = rng.choice([1, 1, 2, 2, 3, 4])
         mx = {1: 40, 2: 9, 3: 6, 4: 4}[d]
         shape = [rng.randint(1, mx) for _ in range(d)]
-        kind = rng.choice(["int", "signed", "real", "positive", "sparse", "wide"])
+        kind = rng.choice(["int", "signed", "real", "positive", "sparse", "wide", "extreme"])
         data = GS.values(rng, O.prod(shape), kind)
         to = [rng.randint(1, s) for s in shape]
         mid = [rng.randint(t, s) for t, s in zip(to, shape)]
@@ -307,8 +307,14 @@ def check_random(S, p):
             continue
         scale = sum(abs(Fraction(x)) for x in data)
         exact = project_exact(shape, [Fraction(x) for x in data], to)
+        # each target cell is a sum of products: a correct evaluation is within a tiny multiple of the sum of the ABSOLUTE terms of THAT
+        # cell (the usual forward bound of a dot product) - not of the whole spectrum, or a huge entry elsewhere would excuse losing a cell
+        exact_abs = project_exact(shape, [abs(Fraction(x)) for x in data], to) if kind in ("extreme", "wide", "signed") else None
         got = [h2f(x) for x in direct["data"]]
-        bad = [(j, g, float(e)) for j, (g, e) in enumerate(zip(got, exact)) if not close(g, e, scale)]
+        if exact_abs is not None:
+            bad = [(j, g, float(e)) for j, (g, e, a_) in enumerate(zip(got, exact, exact_abs)) if not close(g, e, a_)]
+        else:
+            bad = [(j, g, float(e)) for j, (g, e) in enumerate(zip(got, exact)) if not close(g, e, scale)]
         if direct["shape"] != to or bad:
             S.viol("C03:value", "[rand %s] (flat, got, exact) %r" % (tag, bad[:5]), wit)
         if not all(math.isfinite(g) for g in got):
